@@ -169,6 +169,8 @@ Theorem C11_source_facts :
   gen_seen_key_origin_arg = "originAgent" /\ gen_seen_key_sequence_arg = "sequence" /\
   gen_handle_order_lookup_mark_loopcheck_store_flood = true /\
   gen_seen_check_and_mark_in_one_lock_region = true /\
+  gen_increment_sequence_reads_back_under_the_lock = true /\
+  gen_handle_route_withdraw_args = ["peerID"; "withdraw.OriginAgent"; "withdraw.Sequence"; "withdraw.Routes"; "withdraw.SeenBy"] /\
   gen_withdraw_seen_key_origin_arg = "originAgent" /\ gen_withdraw_seen_key_sequence_arg = "sequence" /\
   gen_withdraw_check_and_mark_in_one_lock_region = true /\
   gen_withdraw_mark_loopcheck_process_flood_with_self_appended = true /\
